@@ -281,7 +281,7 @@ func (x *Exec) checkModifies(fr *Frame, exit *State, ct *Contract) {
 			}
 			// objects allocated by this call are not part of the caller-visible frame
 			if keySort(srt) == SInt {
-				excl = append(excl, Ge(o, IntLit(0)))
+				excl = append(excl, Gt(o, IntLit(0))) // nil has no fields
 			}
 			if k == kBufLen {
 				// only buffers owned by somebody on entry are framed (see applyModifies)
